@@ -48,6 +48,9 @@ type GenConfig struct {
 	// ExplicitMappings: render explicit OpenAPI discriminator mappings (cog
 	// keeps their values as "#/components/schemas/X" strings: known finding)
 	ExplicitMappings bool
+	// NamedScalars: declare one or two named scalar definitions (`Label: string`)
+	// and refer to them directly, from lists and from maps (elements possibly null)
+	NamedScalars bool
 	// RefChain: three struct definitions of scalar-like fields, each holding a
 	// plain reference ("inner") to the next one: Entry.inner.inner is an object
 	// two references away
@@ -80,6 +83,7 @@ type mgen struct {
 	// named collection definitions: name -> kind ("array" | "map")
 	collections map[string]string
 	collNames   []string
+	scalarNames []string
 	namedUnion  string
 	disc        string
 	// sharedUnion: one union of scalars used by several fields of the model
@@ -138,6 +142,9 @@ func Draw(t *rapid.T, cfg GenConfig) *Model {
 		g.collNames = append(g.collNames, name)
 	}
 
+	if cfg.NamedScalars {
+		g.scalarNames = pickDistinct(t, []string{"Label", "Duration", "Percent"}, rapid.IntRange(1, 2).Draw(t, "nscalardefs"), "scalarnames", taken)
+	}
 	if cfg.NamedUnions && len(g.variants) >= 2 {
 		g.namedUnion = pickDistinct(t, []string{"Shape", "Element"}, 1, "namedunion", taken)[0]
 	}
@@ -200,6 +207,10 @@ func Draw(t *rapid.T, cfg GenConfig) *Model {
 	}
 	if g.namedUnion != "" {
 		g.m.Defs = append(g.m.Defs, Def{Name: g.namedUnion, Type: T{Kind: KUStructs, Refs: append([]string{}, g.variants...), Discriminator: g.disc}})
+	}
+	for _, name := range g.scalarNames {
+		k := rapid.SampledFrom([]string{KString, KString, KInt, KFloat}).Draw(t, "namedscalarkind")
+		g.m.Defs = append(g.m.Defs, Def{Name: name, Type: T{Kind: k}})
 	}
 	for _, name := range g.collNames {
 		var elem T
@@ -305,12 +316,18 @@ var classList = []string{
 	"nullable_int_plain", "ref_named_union", "array_named_union", "map_named_union", "array_nested_union_structs",
 	"default_int_wide", "default_list_int", "default_list_empty", "default_nullable", "default_union", "default_map",
 	"default_int_bounded", "default_float_bounded",
+	"array_nullable_scalar", "map_nullable_scalar", "array_nullable_enum_ref", "map_nullable_enum_ref",
+	"ref_named_scalar", "array_named_scalar", "map_named_scalar",
+	"array_enum", "map_enum", "string_format",
 }
 
 // focusOnly classes only appear when a check asks for them.
 var focusOnly = map[string]bool{
 	"default_int_wide": true, "default_list_int": true, "default_list_empty": true, "default_nullable": true,
 	"default_union": true, "default_map": true, "default_int_bounded": true, "default_float_bounded": true,
+	// collections whose ELEMENTS may be null (pointers in Go)
+	"array_nullable_scalar": true, "map_nullable_scalar": true, "array_nullable_enum_ref": true, "map_nullable_enum_ref": true,
+	"ref_named_scalar": true, "array_named_scalar": true, "map_named_scalar": true,
 }
 
 func (g *mgen) denseStruct() T {
@@ -552,6 +569,61 @@ func (g *mgen) classType(c string, depth int) (T, bool) {
 		inner := g.structType(depth+2, "")
 		e := T{Kind: KMap, Elem: &inner}
 		t = T{Kind: KArray, Elem: &e}
+	case "array_nullable_scalar", "map_nullable_scalar":
+		e := T{Kind: rapid.SampledFrom([]string{KString, KInt, KFloat, KBool}).Draw(g.t, "nullelemkind"), Nullable: true}
+		if e.Kind == KBool && g.f == OpenAPI {
+			e.Kind = KString
+		}
+		t = T{Kind: KArray, Elem: &e}
+		if c == "map_nullable_scalar" {
+			t.Kind = KMap
+		}
+	case "array_nullable_enum_ref", "map_nullable_enum_ref":
+		if len(g.enums) == 0 {
+			return T{}, false
+		}
+		e := T{Kind: KRef, Ref: rapid.SampledFrom(g.enums).Draw(g.t, "nullelemenum"), Nullable: true}
+		t = T{Kind: KArray, Elem: &e}
+		if c == "map_nullable_enum_ref" {
+			t.Kind = KMap
+		}
+	case "ref_named_scalar", "array_named_scalar", "map_named_scalar":
+		if len(g.scalarNames) == 0 {
+			return T{}, false
+		}
+		e := T{Kind: KRef, Ref: rapid.SampledFrom(g.scalarNames).Draw(g.t, "namedscalarref")}
+		switch c {
+		case "ref_named_scalar":
+			t = e
+		case "array_named_scalar":
+			e.Nullable = rapid.Bool().Draw(g.t, "namedscalarelemnull")
+			t = T{Kind: KArray, Elem: &e}
+		default:
+			e.Nullable = rapid.Bool().Draw(g.t, "namedscalarelemnull")
+			t = T{Kind: KMap, Elem: &e}
+		}
+	case "array_enum", "map_enum":
+		// lists / maps of enum members (named or anonymous enum)
+		var e T
+		if len(g.enums) > 0 && rapid.Bool().Draw(g.t, "enumelemref") {
+			e = T{Kind: KRef, Ref: rapid.SampledFrom(g.enums).Draw(g.t, "enumelemname")}
+		} else {
+			e = g.enumType(false)
+			e.Default = nil
+			if len(e.Members) < 2 {
+				e.Members = append(e.Members, *Raw("other"))
+			}
+		}
+		t = T{Kind: KArray, Elem: &e}
+		if c == "map_enum" {
+			t.Kind = KMap
+		}
+	case "string_format":
+		// CUE has no such annotation: a plain string there
+		t = T{Kind: KString}
+		if g.f != CUE {
+			t.Format = rapid.SampledFrom([]string{"date", "uuid", "email", "time"}).Draw(g.t, "strformat")
+		}
 	case "nullable_int_plain":
 		t = T{Kind: KInt, Nullable: true}
 	case "union_structs":
